@@ -41,7 +41,8 @@
                           IoRcItem (parser.received on the next piece)
                           IoRcChk (R requests in the `expect_continue and ...`
                           test, and sent_continue) -> send_continue (IoRcSc)
-                          IoRcApp (requests.append) IoRcLen (len(requests)==1)
+                          IoRcApp / IoRcApp2 (requests.append(self.request): load of
+                          requests, load of request, then the mutation) IoRcLen (len(requests)==1)
                           -> add_task (IoRcAt)  IoRcRel (Rel Rq)
      send_continue()      ScAcq (A Ob) ScApp (outbufs[-1].append) ScTotR/ScTotW
                           (total += 25, sent_continue := True) ScFl (_flush_some)
@@ -120,7 +121,7 @@ Inductive unit_ := UResp (id n : nat) | UCont (id : nat).
 
 Inductive tid := TIo | TW (i : nat).
 Inductive lockid := Rq | Ob | Dl.
-Inductive attr := ARequests | ATotal | AConnected | AWillClose | ACwf | AOutbufs.
+Inductive attr := ARequests | ATotal | AConnected | AWillClose | ACwf | AOutbufs | ARequest.
 
 Inductive label :=
 | LAcq (l : lockid) | LTry (l : lockid) (ok : bool) | LRel (l : lockid)
@@ -155,7 +156,7 @@ Inductive hcpc := HcAcq | HcBufs | HcTot | HcConn | HcNotify | HcRel | HcConn2.
 Inductive iopc :=
 | IoRd1 | IoRd2 | IoRd3 | IoRd4 | IoWr1 | IoWr2 | IoWr3 | IoSel
 | IoHrConn | IoRecv | IoHrWConn
-| IoRcAcq | IoRcWc | IoRcCwf | IoRcItem | IoRcChk | IoRcSc (sc : scpc) | IoRcApp | IoRcLen
+| IoRcAcq | IoRcWc | IoRcCwf | IoRcItem | IoRcChk | IoRcSc (sc : scpc) | IoRcApp | IoRcApp2 | IoRcLen
 | IoRcAt (a : atpc) | IoRcRel | IoRcRelX
 | IoHwConn | IoHwReq | IoHwFlU (f : flst) | IoHwTot | IoHwTry | IoHwFlL (f : flst)
 | IoHwNTot | IoHwNotify | IoHwRel | IoHwRelX | IoHwExcW
@@ -477,9 +478,10 @@ Definition io_step (s : shared) (i : iost) (e : env) : option (shared * iost * l
       | Some (s', SExc, l) => Some (s', goto IoRcRelX, l)
       | None => None
       end
-  | IoRcApp =>
-      Some (set_arrivals (set_requests (set_sent_continue s false) (requests s ++ [i_cur i])) (arrivals s ++ [i_cur i]),
-            goto IoRcLen, [LR ARequests])
+  | IoRcApp => Some (set_sent_continue s false, goto IoRcApp2, [LR ARequests])
+  | IoRcApp2 =>   (* self.requests.append(self.request): the list is mutated after the argument has been loaded *)
+      Some (set_arrivals (set_requests s (requests s ++ [i_cur i])) (arrivals s ++ [i_cur i]),
+            goto IoRcLen, [LR ARequest])
   | IoRcLen =>
       if Nat.eqb (length (requests s)) 1 then Some (s, goto (IoRcAt AtAcq), [LR ARequests])
       else Some (set_pst s None, goto IoRcItem, [LR ARequests])
@@ -711,3 +713,85 @@ Definition wk_invisible (w : wkst) : bool :=
 
 (* the pending output as the client will see it *)
 Definition pending (s : shared) : list tok := skipn (infl s) (concat (obs s)).
+
+(* ------------------------------------------- executable forms of the C04 predicates
+   (evaluated by the extracted runner on the states the real traces map to, and
+   proved equivalent to the Prop statements in Proof/ChanPipeSpec.v) *)
+
+Definition tok_eqb (a b : tok) : bool :=
+  match a, b with
+  | TResp i k, TResp j l => (Nat.eqb i j && Nat.eqb k l)%bool
+  | TCont i k, TCont j l => (Nat.eqb i j && Nat.eqb k l)%bool
+  | _, _ => false
+  end.
+Fixpoint toks_eqb (a b : list tok) : bool :=
+  match a, b with
+  | [], [] => true
+  | x :: a', y :: b' => (tok_eqb x y && toks_eqb a' b')%bool
+  | _, _ => false
+  end.
+Fixpoint nats_eqb (a b : list nat) : bool :=
+  match a, b with
+  | [], [] => true
+  | x :: a', y :: b' => (Nat.eqb x y && nats_eqb a' b')%bool
+  | _, _ => false
+  end.
+Fixpoint prefixb (a b : list nat) : bool :=
+  match a, b with
+  | [], _ => true
+  | x :: a', y :: b' => (Nat.eqb x y && prefixb a' b')%bool
+  | _ :: _, [] => false
+  end.
+Fixpoint nodupb (l : list nat) : bool :=
+  match l with [] => true | x :: r => (negb (existsb (Nat.eqb x) r) && nodupb r)%bool end.
+
+Definition resp_ids (us : list unit_) : list nat :=
+  flat_map (fun u => match u with UResp id _ => [id] | UCont _ => [] end) us.
+
+(* the workers that own the connection: between taking the channel off the
+   dispatcher queue and handing it over (add_task for the next request / the
+   pop that empties the queue / requests := []) *)
+Definition wk_owner (pc : wkpc) : bool :=
+  match pc with
+  | WAcqD | WWait | WParked => false
+  | WKbAt AtNotify | WKbAt AtRel | WKbRel | WKbRelX | WCbRel | WTlConn | WTlTrig => false
+  | _ => true
+  end.
+Fixpoint owners (n : nat) (f : nat -> wkst) : nat :=
+  match n with 0 => 0 | S m => (if wk_owner (wpc (f m)) then 1 else 0) + owners m f end.
+
+(* C04_wire: transport (nothing duplicated, lost, reordered between the buffers and
+   the wire) and production (what was buffered is whole units in order) *)
+Definition transport_ok (s : shared) : bool :=
+  toks_eqb (wire s ++ pending s ++ discarded s) (produced s).
+Definition production_ok (P : params) (s : shared) : bool :=
+  (toks_eqb (produced s) (flat_map (utoks P) (units s)) && nats_eqb (resp_ids (units s)) (execs s))%bool.
+Definition wire_ok (P : params) (st : state) : bool := (transport_ok (sh st) && production_ok P (sh st))%bool.
+
+(* C04_once *)
+Definition once_ok (st : state) : bool :=
+  let s := sh st in
+  (nodupb (arrivals s) && prefixb (starts s) (arrivals s) && prefixb (execs s) (starts s))%bool.
+
+(* C04_one_at_a_time *)
+Definition one_ok (P : params) (st : state) : bool := Nat.leb (owners (p_nw P) (wk st)) 1.
+
+(* C04_one_entry *)
+Definition entry_ok (P : params) (st : state) : bool :=
+  let s := sh st in
+  let o := owners (p_nw P) (wk st) in
+  (Nat.leb (queue s + o) 1
+   && implb (Nat.eqb (queue s) 1) (match requests s with [] => false | _ => true end)
+   && implb (connected s && (match requests s with [] => false | _ => true end) && Nat.eqb o 0) (Nat.eqb (queue s) 1))%bool.
+
+(* every worker parked and not notified *)
+Fixpoint all_parked (n : nat) (st : state) : bool :=
+  match n with
+  | 0 => true
+  | S m => ((match wpc (wk st m) with WParked => true | _ => false end)
+            && negb (existsb (Nat.eqb m) (qnotified (sh st))) && all_parked m st)%bool
+  end.
+Definition quiescent_ok (P : params) (st : state) : bool :=
+  let s := sh st in
+  implb (all_parked (p_nw P) st && connected s && negb (cwf s) && negb (will_close s))
+        ((match requests s with [] => true | _ => false end) && nats_eqb (execs s) (arrivals s))%bool.
